@@ -652,6 +652,7 @@ def _clone_lib(L, mech, mu_i, idx):
 CM_DEG = [4, 5, 6]
 CM_PTS = [[0.2, 0.1, 0.25, -0.15], [0.0, 0.2, -0.15, 0.0]]
 CM_OFF = [[0.01, 0.005, 0.01, 0.002, -0.01, 0.003], [-0.008, 0.0, 0.012, 0.0, 0.006, 0.0]]
+CM_SEC = [[[0.05, 0.02], 0.2, "q3"]]
 
 
 def _cm_q(cm, q, arg, xL):
@@ -663,6 +664,9 @@ def _cm_q(cm, q, arg, xL):
         return cm.degree
     if q == "to_synodic":
         return cm.to_synodic(np.array(CM_PTS[arg], dtype=float))
+    if q == "to_synodic_section":
+        # 2-D section point at a prescribed energy: goes through the compiled Hamiltonian system of the current degree
+        return cm.to_synodic(np.array(CM_SEC[arg][0], dtype=float), energy=CM_SEC[arg][1], section_coord=CM_SEC[arg][2])
     if q == "to_cm":
         s = np.array(CM_OFF[arg], dtype=float)
         s[0] += xL
@@ -750,7 +754,7 @@ def _clone_cm(cm, mech):
 # ----------------------------------------------------------------------------------------------- PeriodicOrbit
 ORBIT_CTOR = {"halo": {"amplitude_z": 0.02, "zenith": "northern"}, "lyapunov": {"amplitude_x": 0.01}}
 PROP_POOL = [[30, "adaptive", 8], [40, "adaptive", 8], [30, "fixed", 8]]
-PERIOD_POOL = ["same", 2.0, 2.6, None]
+PERIOD_POOL = ["same", 2.0, 2.6, None, "nudge"]     # "nudge": the current period changed by 3 ppm (a near-repeat)
 ORBIT_READS = ["monodromy", "stability_indices", "eigenvalues", "energy", "jacobi", "period", "initial_state"]
 N_CORR = 4
 
@@ -856,6 +860,8 @@ class OrbitHarness(Harness):
 
     def op_set_period(self, j):
         v = self.model["T"] if PERIOD_POOL[j] == "same" else PERIOD_POOL[j]
+        if v == "nudge":
+            v = float(self.model["T"]) * (1.0 + 3e-6) if self.model["T"] is not None else 2.0
         r = attempt(lambda: setattr(self.sut, "period", v))
         if isinstance(r, Raised):
             self.ctx.case(cls="orbit:set_period")
@@ -1267,8 +1273,8 @@ def alphabet(name, tier, fam=None):
     if name == "cm":
         # low degrees keep one sequence (fresh System + point + manifold, twin answers memoised) at ~0.05 s
         return ("cm", [{"mu_i": 0, "idx": 1, "deg": 3}],
-                [["set_degree", [4]], ["q", ["compute", None]], ["q", ["hamiltonian", 4]], ["q", ["degree", None]], ["q", ["to_synodic", 0]],
-                 ["roundtrip", ["pickle"]]] + ([] if q else [["set_degree", [5]]]), 3 if q else 4)
+                [["set_degree", [4]], ["set_degree", [3]], ["q", ["compute", None]], ["q", ["hamiltonian", 4]], ["q", ["to_synodic_section", 0]],
+                 ["q", ["to_synodic", 0]]] + ([] if q else [["q", ["degree", None]], ["roundtrip", ["pickle"]], ["set_degree", [5]]]), 3 if q else 4)
     if name == "system":
         letters = [["propagate", [0, 0, 0, 0, 1]], ["propagate", [0, 0, 0, 1, 1]], ["propagate", [0, 0, 0, 0, -1]]]     # base, other order, backward
         if not q:
@@ -1286,8 +1292,8 @@ def alphabet(name, tier, fam=None):
     if name == "orbit-period":
         x, T = corrected_state(fam)
         return ("orbit", [{"family": fam, "mu_i": 0, "idx": 1, "x": x, "T": T, "last_prop": None}],
-                [["set_period", [1]], ["set_period", [2]], ["read", ["monodromy"]], ["read", ["stability_indices"]], ["propagate", [0]],
-                 ["trajectory", []]] + ([] if q else [["set_period", [3]], ["roundtrip", ["deepcopy", False]]]), 3)
+                [["set_period", [1]], ["set_period", [4]], ["read", ["monodromy"]], ["read", ["stability_indices"]], ["propagate", [0]],
+                 ["trajectory", []]] + ([] if q else [["set_period", [2]], ["set_period", [3]], ["roundtrip", ["deepcopy", False]]]), 3)
     raise HarnessError(name)
 
 
